@@ -728,10 +728,23 @@ def check_C11(v, tier, seed):
     concrete = run_oracle_cases(v, runs, oracle_fd_table, "descriptor table not restored")
     # the long-lived descriptors of procfs handles: every constructor, close-on-exec
     ctor = constructor_step(v, "C11", runs, concrete)
+    # the descriptor ledger (Pathrs/Ledger.lean) evaluated by the model driver on the recorded calls: everything the call
+    # was handed and did not close is the descriptor it returns; it never closes a descriptor it was not handed
+    led = {"ok": 0, "skip": 0, "BAD": 0}
+    for r in runs:
+        for cid, (verdict, line) in r.extra.get("ledger", {}).items():
+            led[verdict] = led.get(verdict, 0) + 1
+            if verdict == "BAD" and (r.name, cid) not in concrete:
+                c = r.by_id.get(cid)
+                facts = case_facts(c) if c and c.op and c.op[0] not in ("proc_new",) and not c.op[0].startswith("proc_") else {"case": cid}
+                facts.update({"kind": "oracle", "oracle": line})
+                v.fail(facts, case_replay(c, "descriptor ledger of the recorded calls: " + line) if c else {"why": line})
+                concrete.add((r.name, cid))
     broken = generic_tie(v, runs, concrete)
     cov = coverage_of(runs)
     cov["tie_mismatches"] = broken
     cov["handle_constructors"] = ctor
+    cov["ledger_verdicts"] = led
     # descriptors opened, duplicated or closed behind the recorder's back
     strace_tie_step(v, "C11", [["root", "--ops", "all", "--seed", str(seed + 47), "--n", str(sizes(tier, 150, 2000))],
                                ["capi-args"]], cov)
